@@ -32,8 +32,14 @@ def match_known(known, prop, key):
     return None
 
 
+PARTIAL = [False]
+
+
 def write_evidence(prop, ev):
+    # runs against a scratch tree (COBYQA_REPO) or restricted to some shapes never touch the committed evidence
     d = os.path.join(HERE, "evidence")
+    if PARTIAL[0] or os.environ.get("COBYQA_REPO", "/repo") != "/repo":
+        d = "/tmp/verif_evidence_scratch"
     os.makedirs(d, exist_ok=True)
     with open(os.path.join(d, f"{prop}.json"), "w") as fh:
         json.dump(ev, fh, indent=1, sort_keys=True, default=str)
@@ -103,6 +109,7 @@ def main(argv=None):
     tasks = []
     hnames = [h for h in hreg.SERVES[prop] if not args.only or h == args.only]
     filt = json.loads(args.shape) if args.shape else None
+    PARTIAL[0] = bool(filt or args.only)
     for h in hnames:
         H = hreg.HARNESSES[h]
         for s in H.shapes(tier, prop):
